@@ -12,6 +12,7 @@ TECHNIQUE = 'definition-based reference monitor on quality_trim_index/nextseq_tr
 LEVEL_TEXT = "Every result of the real trimming functions on ~3x10^5 (quick) generated quality strings is compared with a reference that transcribes the BWA definition, including ties, characters below the base, both bases, the modifier's removed-bases accounting and the CLI's output records and JSON count; metamorphic clauses (all high, all low, base shift) are asserted on the same calls."
 LEVEL_TEXT += ' One trimmer object of each kind also processes streams of reads whose quality strings repeat (state must not leak from read to read), command-line cases use binned qualities, cutoffs 0 and 1 and values up to 2^31-1 are included.'
 LEVEL_TEXT += ' Command-line cases include characters below the quality base (with and without --zero-cap) and cut-offs at and beyond the highest quality on reads of such qualities.'
+LEVEL_TEXT += ' -Q without -q, and the per-read lines of the full text report.'
 LEVEL_NOTE = 'Trusted base: refmodel.qtrim3 (definition), independent FASTQ parser. Thorough adds an exhaustive scope over 3 quality levels up to length 8.'
 VARIANTS = {"quick": ["plain", "asan"], "thorough": ["plain", "asan"]}
 BUDGET_S = {"quick": 120, "thorough": 2400}
